@@ -95,6 +95,15 @@ def RC(name, tuples):
         except Exception as e: r = "E:" + type(e).__name__
         out.append(r + "|" + "".join(map(str, LOG)))
     return out
+def RM(name, kind, tuples):
+    f = globals()[name]; out = []
+    mk = {"vtuple": tuple, "vlist": list, "vset": set, "vfrozenset": frozenset, "vdict": dict.fromkeys}[kind]
+    for t in tuples:
+        del LOG[:]
+        try: r = tokres(f(VAL[t[0]], mk([VAL[k] for k in t[1:]])))
+        except Exception as e: r = "E:" + type(e).__name__
+        out.append(r + "|")
+    return out
 def RX(name, xs):
     f = globals()[name]; out = []
     for x in xs:
@@ -237,6 +246,17 @@ def member_shapes(tier, rng):
                             continue
                         out.append({"kind": kind, "neg": neg, "form": form, "xty": xty, "ctx": ("val", "bool")[(n + k + neg) % 2],
                                     "xdom": XTY_DOM[xty], "mdoms": [mdom] * n})
+    # run-time containers in typed variables
+    k = 0
+    for kind in ("vtuple", "vlist", "vset", "vfrozenset", "vdict"):
+        for neg in (False, True):
+            for n in (0, 1, 2):
+                for xty in ("o", "i"):
+                    if xty == "i" and (n != 2 or neg):
+                        continue
+                    k += 1
+                    out.append({"kind": kind, "neg": neg, "form": "cvar", "xty": xty, "ctx": ("val", "bool")[k % 2],
+                                "xdom": XTY_DOM[xty], "mdoms": [MM2Q if n == 2 else MM] * n})
     lits = [list(ms) for n in (1, 2, 3) for ms in itertools.product(MLIT, repeat=n)]
     combos = [(kind, neg, ms, xty) for kind in ("tuple", "list", "set", "dict") for neg in (False, True) for ms in lits for xty in "oid"]
     pick = rng.sample(combos, 200 if tier == "quick" else 2500)
@@ -250,6 +270,10 @@ def member_shapes(tier, rng):
 
 def render_member(s, name):
     n = len(s["mdoms"])
+    if s["form"] == "cvar":
+        e = "x %s c" % ("not in" if s["neg"] else "in")
+        body = ("    return %s\n" % e) if s["ctx"] == "val" else ("    if %s:\n        return True\n    return False\n" % e)
+        return ("def %s(%sx, %s c):\n%s" % (name, {"o": "", "i": "int "}[s["xty"]], s["kind"][1:], body), "def %s(x, c):\n%s" % (name, body))
     def body(typed):
         xleaf = {"o": "L", "i": "Li", "d": "Ld"}[s["xty"]] if typed else "L"
         if s["form"] == "leaf":
